@@ -36,7 +36,9 @@ Why(e) ==
   LET \* references to names the program defines itself (e.own) are not references to imported code
       ext == SelectSeq(e.refs, LAMBDA n : \A i \in 1..Len(e.own) : e.own[i] # n)
       need == Needed(e.files, ext)
-      wanterr == e.badfile \/ ~Resolvable(e.files, ext) IN
+      \* e.strip: functions whose code calls a static function of their object that the symbol table does not name any more
+      \* (strip -x): the call cannot be bound to a symbol, the object is unsupported as soon as such a function is needed
+      wanterr == e.badfile \/ ~Resolvable(e.files, ext) \/ (\E i \in 1..Len(e.strip) : e.strip[i] \in need) IN
   IF wanterr THEN (IF e.rc # 0 /\ ~e.out THEN <<>> ELSE <<"ErrorExpected">>)
   \* an object in a byte order the importer does not read is an unsupported file: a clean error is right
   ELSE IF e.big /\ e.rc # 0 /\ ~e.out THEN <<>>
